@@ -125,13 +125,30 @@ impl FileSystem {
     ///
     /// TODO Reject relative path
     pub fn get<P: AsRef<Path>>(&self, path: P) -> Result<Rc<RefCell<Inode>>, Errno> {
-        fn main(fs: &FileSystem, path: &Path) -> Result<Rc<RefCell<Inode>>, Errno> {
-            let components = path.components();
-            let mut nodes = vec![Rc::clone(&fs.root)];
-            for component in components {
+        /// Applies the components of `path` to the `nodes` stack.
+        ///
+        /// Symbolic links are followed in all but the last component, and
+        /// also in the last component if `follow_last` is true.
+        fn walk(
+            nodes: &mut Vec<Rc<RefCell<Inode>>>,
+            path: &Path,
+            follow_last: bool,
+            depth: u32,
+        ) -> Result<(), Errno> {
+            const SYMLOOP_MAX: u32 = 8;
+            if depth > SYMLOOP_MAX {
+                return Err(Errno::ELOOP);
+            }
+
+            let mut components = path.components().peekable();
+            while let Some(component) = components.next() {
                 let name = match component {
                     Component::Normal(name) => name,
-                    Component::RootDir | Component::CurDir => continue,
+                    Component::RootDir => {
+                        nodes.truncate(1);
+                        continue;
+                    }
+                    Component::CurDir => continue,
                     Component::ParentDir => {
                         // `..` can be resolved in a directory only
                         if !matches!(
@@ -159,16 +176,35 @@ impl FileSystem {
 
                 let child = Rc::clone(children.get(name).ok_or(Errno::ENOENT)?);
                 drop(node_ref);
-                nodes.push(child);
-            }
 
-            let node = nodes.pop().unwrap();
+                let is_last = components.peek().is_none();
+                let link_target = match &child.borrow().body {
+                    FileBody::Symlink { target } if !is_last || follow_last => {
+                        Some(target.clone())
+                    }
+                    _ => None,
+                };
+                match link_target {
+                    // The target is resolved relative to the directory
+                    // containing the symbolic link.
+                    Some(target) => walk(nodes, &target, true, depth + 1)?,
+                    None => nodes.push(child),
+                }
+            }
+            Ok(())
+        }
+
+        fn main(fs: &FileSystem, path: &Path) -> Result<Rc<RefCell<Inode>>, Errno> {
             // A trailing `/` or `/.` requires a directory. (`Path::components`
             // silently drops a trailing `.` component.)
             let bytes = path.as_unix_str().as_bytes();
-            if (bytes.ends_with(b"/") || bytes.ends_with(b"/."))
-                && !matches!(&node.borrow().body, FileBody::Directory { .. })
-            {
+            let requires_directory = bytes.ends_with(b"/") || bytes.ends_with(b"/.");
+
+            let mut nodes = vec![Rc::clone(&fs.root)];
+            walk(&mut nodes, path, requires_directory, 0)?;
+
+            let node = nodes.pop().unwrap();
+            if requires_directory && !matches!(&node.borrow().body, FileBody::Directory { .. }) {
                 return Err(Errno::ENOTDIR);
             }
             Ok(node)
